@@ -327,6 +327,40 @@ fn fv(input: &[V]) -> Vec<V> {
     vec![res]
 }
 
+/// crypto: ops `1 off len` CRYPTO frame (-> code, and when accepted the in-order bytes waiting),
+/// `2 n` TLS takes at most n bytes (-> bytes taken); a rejected frame ends the case
+fn crypto(input: &[V]) -> Vec<V> {
+    use s2n_quic_transport::verif_hooks::crypto_stream::CryptoRxDriver;
+    let mut c = Cur::new(input);
+    let mut d = CryptoRxDriver::new();
+    let mut out: Vec<V> = vec![];
+    while !c.done() {
+        match c.next() {
+            1 => {
+                let off = c.u64().min(VMAX);
+                let len = c.u64().min(65536) as usize;
+                let data = vec![0x5au8; len];
+                match d.on_crypto_frame(off, &data) {
+                    Ok(()) => {
+                        out.push(0);
+                        out.push(d.buffered_in_order() as V);
+                    }
+                    Err(code) => {
+                        out.push(code as V);
+                        return out;
+                    }
+                }
+            }
+            2 => {
+                let n = c.u64().min(usize::MAX as u64) as usize;
+                out.push(d.consume(n).len() as V);
+            }
+            _ => break,
+        }
+    }
+    out
+}
+
 fn main() {
-    main_with(&[("rx", rx), ("rx_tolerant", rx), ("st", st), ("st_tolerant", st), ("fv", fv)]);
+    main_with(&[("rx", rx), ("rx_tolerant", rx), ("st", st), ("st_tolerant", st), ("fv", fv), ("crypto", crypto)]);
 }
